@@ -258,7 +258,7 @@ func TestCampaign(t *testing.T) {
 				}
 			}
 			var wild string
-			h, wild = hgen.MaybeRename(rt, h, 20)
+			h, wild = hgen.MaybeRename(rt, h, 30)
 			c := Case{Level: "L1", H: h}
 			if rapid.IntRange(0, 5).Draw(rt, "l2?") == 0 {
 				c.Level = "L2"
